@@ -229,6 +229,57 @@ func (c *FnCtx) emitLibAxioms() {
 	saveT := c.trustedUsed
 	c.trustedUsed = map[string]bool{}
 	defer func() { c.trustedUsed = saveT }()
+	// interface methods of the repository with an assumed observer contract: the contract as an axiom over the
+	// observer function, so that it is also available where the method only occurs in specifications
+	var ikeys []string
+	for k, ct := range c.eng.contracts {
+		if ct.Trusted && strings.HasPrefix(k, repoPrefix) && c.eng.funcs[k] == nil && len(ct.Ensures) > 0 && len(ct.Params) == 0 {
+			ikeys = append(ikeys, k)
+		}
+	}
+	sort.Strings(ikeys)
+	for _, k := range ikeys {
+		ct := c.eng.contracts[k]
+		name := sanitize("fn_" + k)
+		if !c.smt.declared[name] {
+			continue // the observer does not occur in this function
+		}
+		func() {
+			defer func() {
+				if r := recover(); r != nil {
+					if _, ok := r.(unsupported); ok {
+						return
+					}
+					panic(r)
+				}
+			}()
+			// result sort from the declaration text
+			var rsort string
+			for _, d := range c.smt.decls {
+				if d.Name == name {
+					rsort = strings.TrimSuffix(d.Text[strings.LastIndex(d.Text, ") ")+2:], ")")
+				}
+			}
+			if rsort == "" {
+				return
+			}
+			recv := leaf("recv$ax", SInt)
+			if it := c.interfaceTypeOf(k); it != nil {
+				recv = recv.withGo(it)
+			}
+			res := mk(name, rsort, recv)
+			st := &State{vars: map[types.Object]*Term{}, heap: map[string]*Term{}, ghost: map[string]*Term{}, alloc: intLit(0)}
+			var conj []*Term
+			for _, en := range ct.Ensures {
+				conj = append(conj, c.specEval(st, en.Expr, map[string]*Term{"recv": recv, "result": res}, nil))
+			}
+			if len(st.heap) > 0 {
+				return
+			}
+			ax := mkForall([]Bound{{recv.Op, SInt}}, mkAnd(conj...), []*Term{res})
+			c.smt.axiom("iface:"+shortFuncKey(k), ax.String(), true, name)
+		}()
+	}
 	for _, ax := range c.eng.axioms {
 		if ax.Lemma {
 			continue
@@ -325,4 +376,25 @@ func cmdAll(args []string) {
 	if bad > 0 {
 		os.Exit(1)
 	}
+}
+
+// interfaceTypeOf resolves "pkgpath.Iface.Method" to the named interface type.
+func (c *FnCtx) interfaceTypeOf(key string) types.Type {
+	i := strings.LastIndex(key, ".")
+	if i < 0 {
+		return nil
+	}
+	rest := key[:i]
+	j := strings.LastIndex(rest, ".")
+	if j < 0 {
+		return nil
+	}
+	p := c.eng.pkgs[rest[:j]]
+	if p == nil || p.Types == nil {
+		return nil
+	}
+	if tn, ok := p.Types.Scope().Lookup(rest[j+1:]).(*types.TypeName); ok {
+		return tn.Type()
+	}
+	return nil
 }
